@@ -167,3 +167,26 @@ PLAN["C17"] = {
     ],
     "scope_note": "Kani: complete per size n = 0..8 and per method; invalid argument over all of usize. Verus: kernels in debug and release variants, unbounded.",
 }
+
+
+PLAN["C19"] = {
+    "level": "proof",
+    "technique": "Verus contract on the real fill_random with the generator call replaced by its weakest contract (arbitrary u64): wf for all n; Kani contract triples on Lut::random / LutN::random per size against a contract-model of the rand crate (symbolic output sequence, call counter): every word is a fresh generator output masked to the table size",
+    "level_text": "Well-formedness of random() is proved for every n and every generator behaviour by Verus. Transparency is proved per size LutN 0..12 and Lut 0..12 by Kani on the real code linked against a contract-model of rand: word w of the d-th draw equals the (d*T+w)-th generator output masked with the size mask, exactly T generator calls per draw, no state kept between calls. Non-degeneracy and draw independence then reduce to those of rand::thread_rng, which is assumed (statistical property outside the reach of contracts).",
+    "level_note": "Assumed, not checked: rand 0.8 thread_rng() yields independent uniform u64 per call and per thread. Trusted: Verus/Z3/vstd, Kani/CBMC, rustc; the model crate replaces rand only inside the overlay.",
+    "verus_units": ["kernels"],
+    "kani_units": ["spec_ops.rs", "c19_random.rs"],
+    "kani_filters": {"quick": ["c19q_"], "thorough": ["c19t_"]},
+    "kani_features": "rand",
+    "overlay_dirs": [("models/rand", "verif_models/rand")],
+    "overlay_rewrites": [("Cargo.toml", 'rand = { version = "0.8.5", optional = true }', 'rand = { path = "verif_models/rand", optional = true }')],
+    "kani_scope": {r"_s_": "complete(LutN, fixed N: all generator output sequences)", r"_d_": "complete(Lut, fixed n: all generator output sequences)"},
+    "harness_timeout": {"quick": 600, "thorough": 3600},
+    "functions": ["operations::fill_random", "operations::num_vars_mask", "Lut::random", "StaticLut::random"],
+    "twins": {"fill_random": {"filters": ["c19q_", "c19t_"], "complete": True}},
+    "assumptions": _VERUS_ASSUMED + [
+        "contract-model of rand (contracts/models/rand): thread_rng().next_u64() returns successive elements of an arbitrary sequence; the real generator's uniformity/independence per call and per thread is ASSUMED",
+        "Verus extraction rule 4: `rand::thread_rng().next_u64()` is replaced by an external_body function returning an arbitrary u64",
+    ],
+    "scope_note": "Verus: fill_random wf unbounded. Kani: complete per size LutN 0..12, Lut 0..12 against the rand contract-model.",
+}
